@@ -183,6 +183,9 @@ type Engine struct {
 	stop   bool
 	trace  bool
 	replayMode bool
+	forkSites map[string]int
+	foldStats sync.Map
+	pdomCache sync.Map
 }
 
 func (e *Engine) push(p []Dec) {
@@ -193,6 +196,44 @@ func (e *Engine) push(p []Dec) {
 	e.queue = append(e.queue, p)
 	e.mu.Unlock()
 	e.cond.Signal()
+}
+
+func (e *Engine) noteFork(x *Exec) {
+	site := "?"
+	if x.cur != nil && len(x.cur.frames) > 0 {
+		fr := x.cur.frames[len(x.cur.frames)-1]
+		bi := -1
+		if fr.block != nil {
+			bi = fr.block.Index
+		}
+		site = fmt.Sprintf("%s#%d", fr.fn.String(), bi)
+	}
+	e.mu.Lock()
+	if e.forkSites == nil {
+		e.forkSites = map[string]int{}
+	}
+	e.forkSites[site]++
+	e.mu.Unlock()
+}
+
+type foldStat struct{ ok, fail int }
+
+func (e *Engine) foldHopeless(b *ssa.BasicBlock) bool {
+	if v, ok := e.foldStats.Load(b); ok {
+		st := v.(*foldStat)
+		return st.ok == 0 && st.fail >= 3
+	}
+	return false
+}
+
+func (e *Engine) foldResult(b *ssa.BasicBlock, ok bool) {
+	v, _ := e.foldStats.LoadOrStore(b, &foldStat{})
+	st := v.(*foldStat)
+	if ok {
+		st.ok++
+	} else {
+		st.fail++
+	}
 }
 
 func (e *Engine) noteUnknown(q string) {
@@ -256,6 +297,11 @@ func (l *Loaded) Explore(spec *EntrySpec, activeKnown map[string]bool, workers i
 	e.entry = l.findFunc(spec.Name)
 	if e.entry == nil {
 		return nil, fmt.Errorf("entry %s not found", spec.Name)
+	}
+	if d := os.Getenv("VERIF_DUMPFN"); d != "" {
+		if f := l.findFunc(d); f != nil {
+			f.WriteTo(os.Stderr)
+		}
 	}
 	if !spec.NoInit {
 		e.initFn = e.entry.Pkg.Func("init")
@@ -382,6 +428,23 @@ func (l *Loaded) Explore(spec *EntrySpec, activeKnown map[string]bool, workers i
 		}
 	}
 	e.res.WallS = time.Since(t0).Seconds()
+	if os.Getenv("VERIF_FORKSITES") != "" {
+		type kv struct {
+			k string
+			n int
+		}
+		var kvs []kv
+		for k, n := range e.forkSites {
+			kvs = append(kvs, kv{k, n})
+		}
+		sort.Slice(kvs, func(i, j int) bool { return kvs[i].n > kvs[j].n })
+		for i, p := range kvs {
+			if i >= 15 {
+				break
+			}
+			fmt.Fprintf(os.Stderr, "  fork site %-80s %d\n", p.k, p.n)
+		}
+	}
 	return e.res, nil
 }
 
